@@ -46,7 +46,9 @@ class World:
         self.servers = {"s1": pc_sched.Server("s1", mins, ofx_server),
                         "s2": pc_sched.Server("s2", mins, ofx_server),
                         "s3": pc_sched.Server("s3", mins, ofx_server, url="https://s1.invalid/other/ofx"),
-                        "s4": pc_sched.Server("s4", mins, ofx_server, url="https://s1.invalid:8443/ofx")}
+                        "s4": pc_sched.Server("s4", mins, ofx_server, url="https://s1.invalid:8443/ofx"),
+                        # s5: the same host, port and path as s1 - another tenant named in the query string only
+                        "s5": pc_sched.Server("s5", mins, ofx_server, url="https://s1.invalid/ofx?cl=tenant5")}
         self.sched = pc_sched.Sched(self.dir)
         self.events = []
         self.n = 0
@@ -591,7 +593,7 @@ def explore(ctx, mins, rnd, quick):
     LO, LF = "O" * 32, "F" * 32       # identifiers at their maximum length
     for orgfid in ((("ORG", "FID"), ("ORG", "FID")), ((None, None), (None, None)), (("ORG", "F1"), ("ORG", "F2")), (("O1", "FID"), ("O2", "FID")),
                    ((LO, LF), (LO, LF)), (("ORG 1 & Co.", "F:1*?"), ("ORG 1 & Co.", "F:1*?"))):
-        for srv2 in ("s1", "s2", "s3", "s4"):
+        for srv2 in ("s1", "s2", "s3", "s4", "s5"):
             for kinds in (("newer", "uptodate"), ("newer", "newer", "uptodate"), ("bumpnewer", "older"), ("newer", "error", "uptodate")):
                 def body(w, orgfid=orgfid, srv2=srv2, kinds=kinds):
                     a = w.client("s1", org=orgfid[0][0], fid=orgfid[0][1])
